@@ -149,7 +149,7 @@ PROPS = {
         "trusted_base": TB_ALGEBRA + ["A-ENC / scalar_le: to_repr/from_repr are inverse on canonical encodings; the all-zero encoding is exactly the zero scalar",
                                       "L-SERDE: serde derive expansions, serde_bare, serde_json, hex and the curve crates' (de)serializers are NOT verified"],
         "hypotheses": [],
-        "not_decided": ["serde_bare and serde_json round trips of every type (derive expansions are outside both verifiers)", "types whose byte form is produced by serde_bare (Signature, AggregateSignature, MultiSignature, ProofCommitment, ProofOfKnowledge*, shares, ciphertexts)"],
+        "not_decided": ["that the serde_bare encodings themselves are lossless is ASSUMED (L-SERDE: one uninterpreted encoding per type with decode(encode(v)) == v); proved on top of it: every byte-form wrapper hands the whole value to the encoder and returns what the decoder yields, the scheme tag <-> variant maps, the length guards", "serde_json / human-readable forms and the macro-generated Vec / Box conversions (one-line delegations)"],
     },
     "C16": {
         "units": [LEAF_ZERO_DETECTED, gen("C16", props=["lib_bytes.rs", "C16.rs"])],
